@@ -23,7 +23,7 @@ func main() {
 	kit.Main(kit.Prop{
 		ID:    "C03",
 		Level: "exploration",
-		Rule: "each case is a PRNG-drawn assembly (memory hierarchies with caches/ROB/ideal/banked/DRAM, 1-3 drivers, interleaved modules; translation stacks with TLBs/MMU cache/GMMU/MMU, several processes sharing virtual addresses) executed in several fresh OS processes " +
+		Rule: "each case is a PRNG-drawn assembly (memory hierarchies with caches/ROB/ideal/banked/DRAM, 1-3 drivers, interleaved modules; translation stacks with TLBs/MMU cache/GMMU/MMU, several processes sharing virtual addresses) executed in several fresh OS processes, the last of them as the second simulation of its process (after timing.ResetIDGenerator); write-back hierarchies get a mid-stream drain + address-filtered flush + enable " +
 			"(Go randomises map iteration per process and per range statement); the running hash of the BeforeEvent trace, the running hash of every port event with full message metadata (IDs included), " +
 			"every entity's final checkpoint payload, end time and ID counter must coincide across executions. Non-trivial: the run handled >= 1000 events and has a cache or several memory modules; distinct by configuration",
 		Assumptions: []string{"nondeterminism that needs a different binary, GC timing or wall-clock dependence not reachable in a few executions is out of reach"},
@@ -40,7 +40,7 @@ func main() {
 			return bs
 		},
 		Run:         run,
-		MustObserve: []string{"executions", "port_events_hashed"},
+		MustObserve: []string{"executions", "port_events_hashed", "executions_as_second_run_in_one_process", "assemblies/with-mid-stream-filtered-flush"},
 	})
 }
 
@@ -55,7 +55,15 @@ func run(b kit.Batch, r *kit.R) {
 			Compare(c, "vm", cfg, p)
 			return
 		}
-		cfg := sim.RandomStackCfg(c.Rng, sim.GenOpts{NumReqs: p.NumReqs, AllowDRAM: true, AllowBanked: true, MaxDrivers: 3})
+		cfg := sim.RandomStackCfg(c.Rng, sim.GenOpts{NumReqs: p.NumReqs, AllowDRAM: true, AllowBanked: true, MaxDrivers: 3, ForceWB: c.Rng.Intn(2) == 0})
+		for _, l := range cfg.Levels {
+			if l.Kind == "wb" {
+				// a filtered flush of several lines in the middle of the stream
+				cfg.WithCtrl, cfg.FlushAt, cfg.FlushLines = true, 40+c.Rng.Intn(p.NumReqs/2), 2+c.Rng.Intn(10)
+				r.Count("assemblies/with-mid-stream-filtered-flush", 1)
+				break
+			}
+		}
 		c.Desc(cfg)
 		r.Count("assemblies/memory-hierarchy", 1)
 		Compare(c, "stack", cfg, p)
@@ -70,7 +78,12 @@ func Compare(c *kit.Case, kind string, cfg any, p params) {
 	limit := uint64(p.NumReqs) * 200000 * 1000
 	var first sim.RoleRes
 	for i := 0; i < p.Procs; i++ {
-		res, err := sim.CallRole(sim.RoleReq{Role: "ref", Kind: kind, Cfg: cfgJSON, Dir: dir, Limit: limit})
+		// the last execution is the second simulation run inside one process (same or different process, as the property says)
+		again := i == p.Procs-1
+		if again {
+			r.Count("executions_as_second_run_in_one_process", 1)
+		}
+		res, err := sim.CallRole(sim.RoleReq{Role: "ref", Kind: kind, Cfg: cfgJSON, Dir: dir, Limit: limit, Again: again})
 		if err != nil || res.Err != "" {
 			c.Fail("det/run-error", map[string]any{"err": fmt.Sprint(err, res.Err), "cfg": cfg})
 			return
